@@ -318,7 +318,10 @@ claim("C09",
       "function, complete enumeration of expected lists of length 0..3, buffers 0..2 over three event classes - "
       "labelled bounded, never counted as proved. Result lists that mix several collect actions in one tick are "
       "outside the two reducer-side shapes.",
-      category="other")
+      category="other",
+      technique="contract-based deductive verification of the reducer side (pyvc + z3, variant contracts); the "
+                "step-side function InternalContext.collect_events only as a bounded stand-in (run-time checked "
+                "contract over an exhaustively enumerated finite domain), labelled bounded, not counted as proved")
 
 claim("C36",
       "Two pieces of the in-process stack are decided. (1) Marking: _IdleReleaseInternalRunAdapter.write_to_event_stream "
@@ -352,8 +355,10 @@ claim("C34",
       "Their contracts (the two round trips give back the normalised original; the classification is 'none' exactly "
       "when the new version is not greater and otherwise names the most significant release component that grew) are "
       "checked at run time on the real functions over a complete enumeration of a small version domain (components "
-      "0..2, pre-releases a/b/rc 0..2; 0..3 and all pairs in the thorough tier).",
-      "Bound: no epochs, post/dev/local segments, multi-digit components or more than three release components; when "
+      "0..2, pre-releases a/b/rc 0..2; 0..3 and all pairs in the thorough tier; the two round trips also on release "
+      "tuples of one, two and four components - which is how the defect repaired by fix b5133a2 was found).",
+      "Bound: no epochs, post/dev/local segments, multi-digit components or more than four release components (three "
+      "for the classification); when "
       "only the pre-release part grew the statement names no component and any of major/minor/patch is accepted.",
       category="exploration",
       technique="bounded stand-in for contract verification: run-time checked contracts on the real functions over an "
